@@ -137,7 +137,18 @@ def rule_flag_guards(ctx):
             ctx.check(r and r[-1][1] == "ReturnCode.PENDING", ps.fq, "pending steps -> PENDING", f"returns {r[-1][1] if r else None}", "PENDING")
     mt = ctx.prog.func("finalize._report_missing_targets")
     flags = {n.attr for n in ast.walk(mt.node) if isinstance(n, ast.Attribute) and isinstance(n.value, ast.Name) and n.value.id == "ReturnCode"}
-    ctx.check(flags == {"WARNING"}, mt.fq, "missing targets only warn", f"flags {sorted(flags)}", "WARNING only")
+    ctx.check(flags <= {"WARNING", "FAILED"} and "WARNING" in flags, mt.fq, "missing targets warn; only an invalid target can fail", f"flags {sorted(flags)}", "WARNING (+ FAILED for invalid targets)")
+    # a requested target that ended up in a state a target may never have is invalid, and the build says so: the
+    # end-of-build report consults the forbidden states itself (the startup check defers to the declaration when a
+    # creator is pending, and a declaration that returns through a full recycle is never checked)
+    consults = any(callee_name(c) == "_raise_if_forbidden_target" for c in calls_in(mt.node)) or "TARGET_FORBIDDEN_STATES" in ast.unparse(mt.node)
+    fails = any(isinstance(n, ast.AugAssign) and isinstance(n.op, ast.BitOr) and "ReturnCode.FAILED" in ast.unparse(n.value) for n in ast.walk(mt.node))
+    ctx.check(consults and fails, mt.fq, "a target that ended up static or volatile sets the FAILED bit at the end of the build",
+              "the end-of-build report only asks whether the target is a regular output: a static (or volatile) target whose declaration came back through a recycled nested plan ends the build with a warning ('not produced by any step') and no FAILED bit, while the run before and the run after report 'Invalid build target' and fail", "forbidden states consulted, FAILED or-ed", where=ctx.where_of(mt))
+    if fails:
+        # FAILED is or-ed only inside the loop over the invalid targets
+        guarded = all(any(isinstance(p_, (ast.For, ast.If)) and n in list(ast.walk(p_)) for p_ in ast.walk(mt.node) if p_ is not mt.node) for n in ast.walk(mt.node) if isinstance(n, ast.AugAssign) and "ReturnCode.FAILED" in ast.unparse(n.value))
+        ctx.check(guarded, mt.fq, "FAILED is set only for an invalid target", "the missing-target report fails unconditionally", "inside the loop over invalid targets")
     gv = ctx.prog.func("finalize._report_glob_violations")
     src = _norm(ast.unparse(gv.node))
     ctx.check("if len(warnings) > 0: returncode |= ReturnCode.WARNING" in src and "if len(errors) > 0: returncode |= ReturnCode.FAILED" in src, gv.fq, "unjustified match -> WARNING, matched product -> FAILED", "glob violation flags changed", "ok")
@@ -280,6 +291,7 @@ WHERE req.node IN (SELECT i FROM pend_step)
 
 
 MUTANTS = [
+    Mutant("invalid-target-only-warns", "finalize.py", in_function("_report_missing_targets", replace_once("        returncode |= ReturnCode.FAILED\n", "        returncode |= ReturnCode.WARNING\n")), ("R-C19-2",)),
     Mutant("resource-arm-any-request", "pending.py", _resource_arm_drop, ("R-C19-3",)),
     Mutant("resource-seed-any-request", "pending.py", _resource_seed_drop, ("R-C19-3",)),
     Mutant("serve-invalid-target-zero", "director.py", in_function("serve", replace_once("return ServeResult(returncode=ReturnCode.FAILED, usage_report=\"\", usage_summary=\"\")", "return ServeResult(returncode=ReturnCode(0), usage_report=\"\", usage_summary=\"\")")), ("R-C19-1",)),
